@@ -78,6 +78,17 @@ CHECKS.update({
          "reads Producer._batch_reqs/_waitingMsgCount/_waitingByteCount/_batch_send_d (missing attribute => inconclusive)", "3/C19"),
 })
 
+CHECKS.update({
+ "C02": ("consumer-e2e", "exploration",
+         "history checker: processor invocations (offset, key, value; overlap) against the partition log generated as data, with segment boundaries derived from what the cluster answered",
+         "The real Consumer -> KafkaClient stack consumes logs generated as data (compaction gaps, plain and gzip batches in both message formats, oversized records, log start > 0, appends, retention) from numeric/earliest/latest/committed positions, with sync/async/chained processors, commits, stop+restart, and faults on every request kind plus leader moves. Delivered offsets must equal the log from the resolved position, strictly increasing without omission or repeat, with the stored key/value; never overlapping; discontinuities only at a reset-policy firing or a restart; a healthy idle consumer with records left is a violation.",
+         "unique (key,value) per offset; resolved start = the cluster's own ListOffsets/OffsetFetch answer; slow-but-active is recorded, not judged", "3/C02"),
+ "C13": ("consumer-e2e", "exploration",
+         "stop-point injection: stop()/shutdown() after a drawn reactor event of each situation surveyed in a stop-free baseline run (also from inside the processor and from the start errback), then restart; monitors on processor calls, client writes, delayed calls and the start/shutdown Deferreds",
+         "After stop() returned: no processor call, no Fetch/ListOffsets/OffsetFetch/OffsetCommit frame written until the restart, no delayed call bound to the consumer; stop() returns normally; the start Deferred fires exactly once with the offset (or with an earlier unrecoverable failure, never with the echo of stop's own cancellations); shutdown's Deferred fires once, no processor call begins after it was requested, committed == processed == coordinator's stored offset on success; a restarted consumer delivers again. Ten defects found here were fixed in /repo; one is listed as known.",
+         "situations classified from Consumer attributes (stratification only); the C02 stream oracle stays on", "3/C13"),
+})
+
 PENDING = {}
 
 def main():
@@ -113,6 +124,7 @@ def main():
             {"name": "brokerclient", "path": "afkverif/engines/bc.py", "serves_properties": ["C06", "C10"], "kind_free_text": "real _KafkaBrokerClient / KafkaBootstrapProtocol over simnet (virtual clock, in-memory transports) against a scripted raw server"},
             {"name": "client-e2e", "path": "afkverif/engines/world.py", "serves_properties": ["C07", "C11", "C20"], "kind_free_text": "real KafkaClient stack on SimClock + simnet against simkafka (cluster model speaking the independent codec)"},
             {"name": "producer-e2e", "path": "afkverif/engines/prod.py", "serves_properties": ["C01", "C09", "C19"], "kind_free_text": "real Producer on the real client stack against simkafka with seeded fault plans; unique keys/values make histories unambiguous"},
+            {"name": "consumer-e2e", "path": "afkverif/engines/cons.py", "serves_properties": ["C02", "C03", "C13", "C14"], "kind_free_text": "real Consumer on the real client stack against a partition log generated as data in simkafka; processor model with sync/async/chained/failing behaviours"},
             {"name": "codec", "path": "afkverif/refproto.py", "serves_properties": ["C04", "C05", "C12"], "kind_free_text": "independent strict Kafka wire codec used as differential oracle"},
         ],
         "checks": checks,
